@@ -10,12 +10,14 @@ import (
 	"fmt"
 	"os"
 	"os/exec"
+	"os/signal"
 	"path/filepath"
 	"runtime"
 	"sort"
 	"strconv"
 	"strings"
 	"sync"
+	"syscall"
 	"time"
 
 	"github.com/buzzfeed/sso/verifsim/world"
@@ -247,6 +249,9 @@ func runWorkerProc(bin string, spec map[string]interface{}, prog string, hard ti
 	// one run at a time per process: two OS threads are plenty, and a lazier collector pays off
 	// (every sealed value allocates a fresh gzip writer inside sso)
 	cmd.Env = append(append(os.Environ(), "VERIF_WORKER="+string(js), "GOGC=400", "GOMAXPROCS=2"), extraEnv...)
+	if scratch != "" {
+		cmd.Env = append(cmd.Env, "TMPDIR="+scratch) // the workers' own temporary directories die with the check's
+	}
 	cmd.Dir = filepath.Dir(bin)
 	var outBuf strings.Builder
 	cmd.Stdout, cmd.Stderr = &outBuf, &outBuf
@@ -378,6 +383,9 @@ func (k knownFinding) matches(property, assertion string, sig map[string]string)
 	return true
 }
 
+// scratch is the check's temporary directory (removed on exit and on signals).
+var scratch string
+
 func main() {
 	if len(os.Args) < 2 {
 		die(exitUnwell, "usage: check <property> quick|thorough | replay <file> | determinism [ids] ")
@@ -443,6 +451,14 @@ func cmdCheck(id, tier string) int {
 		die(exitUnwell, "%v", err)
 	}
 	defer os.RemoveAll(tmp)
+	scratch = tmp
+	sigs := make(chan os.Signal, 1)
+	signal.Notify(sigs, os.Interrupt, syscall.SIGTERM, syscall.SIGPIPE, syscall.SIGHUP)
+	go func() {
+		<-sigs
+		os.RemoveAll(tmp) // leave nothing behind when the check is cut short
+		os.Exit(exitUnwell)
+	}()
 	bin, err := build(spec.Engine, tmp)
 	if err != nil {
 		fmt.Println(err)
